@@ -2,7 +2,7 @@
 from core import Case, enc_b, enc_s, psec
 from props.cardutil import digits, rb
 
-OBLIGATIONS = ["Psec.Props.Translate.decoded_pin_is_pinOk", "Psec.Props.Translate.translate_to_iso0_iso2", "Psec.Props.C06.decodeBody_eq_spec", "Psec.Props.C06.decode_iso0_iff", "Psec.Props.C06.decode_iso2_iff", "Psec.Props.C06.decode_iso3_iff", "Psec.Props.C06.decode_iso4_field_iff", "Psec.Props.C06.decode_wrong_size", "Psec.Props.C06.decode_outcomes", "Psec.Props.C06.wellFormed_pin", "Psec.Props.C06.cross_format", "Psec.Props.C06.iso0_iso3_exclusive", "Psec.Props.C06.wellFormed_iso0_unique", "Psec.Props.C06.iso0_pan_binding", "Psec.Props.C06.iso4_pan_binding_partial", "Psec.Props.C06.iso4_pan_field_injective", "Psec.Props.C06.iso4_pan_field_injective_long", "Psec.Props.C06.iso4_decipher_other_pan", "Psec.Props.C06.iso4_wrong_pan_reduction", "Psec.Props.C06.C06_iso4_binding_of_no_structured_hit"]
+OBLIGATIONS = ["Psec.Props.Translate.decoded_pin_is_pinOk", "Psec.Props.Translate.translate_to_iso0_iso2", "Psec.Props.Translate.translate_to_iso3_iso4", "Psec.Props.C06.decodeBody_eq_spec", "Psec.Props.C06.decode_iso0_iff", "Psec.Props.C06.decode_iso2_iff", "Psec.Props.C06.decode_iso3_iff", "Psec.Props.C06.decode_iso4_field_iff", "Psec.Props.C06.decode_wrong_size", "Psec.Props.C06.decode_outcomes", "Psec.Props.C06.wellFormed_pin", "Psec.Props.C06.cross_format", "Psec.Props.C06.iso0_iso3_exclusive", "Psec.Props.C06.wellFormed_iso0_unique", "Psec.Props.C06.iso0_pan_binding", "Psec.Props.C06.iso4_pan_binding_partial", "Psec.Props.C06.iso4_pan_field_injective", "Psec.Props.C06.iso4_pan_field_injective_long", "Psec.Props.C06.iso4_decipher_other_pan", "Psec.Props.C06.iso4_wrong_pan_reduction", "Psec.Props.C06.C06_iso4_binding_of_no_structured_hit"]
 EXTRA_MODULES = ["PsecModel.Lemmas.PanField", "PsecModel.Lemmas.Iso4Binding", "PsecModel.Props.Translate"]
 TRUSTED_BASE = ["Lean 4.33 kernel", "Spec/ISO9564.lean well-formedness predicates are my reading of ISO 9564-1", "format-4 PAN binding additionally assumes AES pseudo-randomness",
                 "correspondence harness and compiled driver"]
@@ -57,6 +57,15 @@ def one(c, fmt, nibs, pan, maskbytes):
         d2 = c.call("pinblock.decode_pinblock_iso_2", e2.value) if e2.ok else e2
         if not (d0.ok and d0.value == r.value and d2.ok and d2.value == r.value):
             c.fail(f"a PIN returned by {fn} does not survive re-encoding in format 0 / format 2 (PIN translation)")
+        if clear[-1] % 3 == 0:      # a third of the accepted blocks also go through formats 3 and 4 (translate_to_iso3_iso4)
+            k4 = bytes((x * 7 + 3) & 0xFF for x in range(16))
+            e3 = c.call("pinblock.encode_pinblock_iso_3", r.value, tpan, with_entropy=True)
+            pan4 = tpan[:19]       # format 4 admits PANs of 1..19 digits, formats 0 / 3 any PAN of 13 or more
+            e4 = c.call("pinblock.encipher_pinblock_iso_4", k4, r.value, pan4, with_entropy=True)
+            d3 = c.call("pinblock.decode_pinblock_iso_3", e3.value, tpan) if e3.ok else e3
+            d4 = c.call("pinblock.decipher_pinblock_iso_4", k4, e4.value, pan4) if e4.ok else e4
+            if not (d3.ok and d3.value == r.value and d4.ok and d4.value == r.value):
+                c.fail(f"a PIN returned by {fn} does not survive re-encoding in format 3 / format 4 (PIN translation)")
     return r
 
 
